@@ -269,7 +269,10 @@ func (tp *ethTxPool) CheckAndAdd(tx *etypes.Transaction, rawTx types.Tx) error {
 		return errTxExist
 	}
 
-	from, _ := etypes.Sender(tp.app.Signer, tx)
+	from, err := etypes.Sender(tp.app.Signer, tx)
+	if err != nil {
+		return err
+	}
 	currentNonce := tp.safeGetNonce(from)
 	if currentNonce > tx.Nonce() {
 		return fmt.Errorf("nonce(%d) different with getNonce(%d)", tx.Nonce(), currentNonce)
